@@ -2095,7 +2095,9 @@ def gen_overridable_alias(rng, idx, variant=None):
 
 PASS_VARIANTS = ("twins", "twin-is-output", "twins-both-outputs", "twin-used-in-if", "twin-in-two-scopes", "attr-zero-sign", "const-zero-sign",
                  "dead-chain-and-dead-if", "dup-init-zero-sign", "dup-init-nan-payload", "dup-init-strings", "dup-init-dtypes", "const-only-in-subgraph",
-                 "slice-unnamed-dynamic-axis", "slices-chained-dynamic-axis")
+                 "slice-unnamed-dynamic-axis", "slices-chained-dynamic-axis",
+                 "scatternd-permuted-full-cover", "scatternd-one-swap", "scatternd-identity-indices", "scatternd-duplicate-rows",
+                 "dropout-runtime-training-mode", "dropout-computed-training-mode", "dropout-runtime-ratio")
 
 
 def gen_pass_case(rng, idx, variant=None):
@@ -2204,6 +2206,64 @@ def gen_pass_case(rng, idx, variant=None):
             nodes += [helper.make_node("Slice", ["x", "st", "en", "ax", "sp"], ["s1"]), helper.make_node("Slice", ["s1", "st2", "en2", "ax", "sp"], ["y"])]
         outs, exact = [helper.make_tensor_value_info("y", F, [None, 4])], [True]
         feeds = [{"x": np.arange(24, dtype=np.float32).reshape(6, 4)}, {"x": np.ones((4, 4), dtype=np.float32)}, {"x": nice(rng, F32, (5, 4))}]
+    elif variant.startswith("scatternd-"):
+        # ScatterND(data, constant [n,1] indices, updates) with data.shape == updates.shape: the default rule ScatterAllStatic may replace it
+        # by Identity(updates) only when the indices are exactly 0..n-1 IN THAT ORDER (updates[i] goes to row indices[i])
+        n, k = rng.choice([(3, 2), (4, 2), (4, 3), (5, 1)])
+        if variant == "scatternd-identity-indices":
+            idxs = list(range(n))
+        elif variant == "scatternd-one-swap":
+            idxs = list(range(n))
+            i = rng.randrange(n - 1)
+            idxs[i], idxs[i + 1] = idxs[i + 1], idxs[i]
+        elif variant == "scatternd-duplicate-rows":
+            idxs = [rng.randrange(n - 1) for _ in range(n)]       # some row is never written: data shows through
+        else:
+            idxs = rng.choice([list(reversed(range(n))), list(range(1, n)) + [0], [n - 1] + list(range(n - 1))])
+        ins = [vi("x", [n, k]), vi("u", [n, k])]
+        init("idx", np.array(idxs, dtype=np.int64).reshape(n, 1))
+        nodes.append(helper.make_node("ScatterND", ["x", "idx", "u"], ["s"]))
+        nodes.append(helper.make_node("Neg", ["s"], ["y"]))
+        outs, exact = [vi("y", [n, k]), vi("s", [n, k])], [True, True]
+        rows = np.arange(n * k, dtype=np.float32).reshape(n, k)
+        feeds = [{"x": -rows - 1, "u": rows * 2 + 1}, {"x": np.zeros((n, k), dtype=np.float32), "u": rows[::-1].copy() + 0.5},
+                 {"x": nice(rng, F32, (n, k)), "u": rows - 3}]
+        if variant == "scatternd-duplicate-rows":
+            # rows written twice get the same update on every runtime only if the competing updates are equal
+            for fd in feeds:
+                for r in set(idxs):
+                    js = [j for j, q in enumerate(idxs) if q == r]
+                    for j in js[1:]:
+                        fd["u"][j] = fd["u"][js[0]]
+    elif variant.startswith("dropout-"):
+        # Dropout whose training_mode (or ratio) is only known at run time must stay: in training mode with ratio 0.5 every element of y is 0 or
+        # 2x whatever the random mask, so  w = y * (y - 2x)  and  v = Where(mask, y - 2x, y)  are 0 on every runtime; a Dropout wrongly
+        # replaced by Identity gives  -x*x  instead (what inference mode gives, too)
+        ins = [vi("x", [4]), helper.make_tensor_value_info("tm", TensorProto.BOOL, [])]
+        init("two", np.array(2, dtype=np.float32))
+        tm = "tm"
+        if variant == "dropout-computed-training-mode":
+            ins.append(helper.make_tensor_value_info("tm2", TensorProto.BOOL, []))
+            nodes.append(helper.make_node("Not", ["tm2"], ["ntm2"]))
+            nodes.append(helper.make_node("And", ["tm", "ntm2"], ["tmc"]))
+            tm = "tmc"
+        if variant == "dropout-runtime-ratio":
+            ins.append(vi("ratio", []))
+            ratio = "ratio"
+        else:
+            init("ratio", np.array(0.5, dtype=np.float32))
+            ratio = "ratio"
+        nodes.append(helper.make_node("Dropout", ["x", ratio, tm], ["y", "mask"], seed=rng.randrange(1, 1000)))
+        nodes += [helper.make_node("Mul", ["x", "two"], ["x2"]), helper.make_node("Sub", ["y", "x2"], ["d"]), helper.make_node("Mul", ["y", "d"], ["w"]),
+                  helper.make_node("Where", ["mask", "d", "y"], ["v"])]
+        outs, exact = [vi("w", [4]), vi("v", [4])], [True, True]
+        xs = [np.array([1, -2, 3, 4], dtype=np.float32), np.array([0.5, 8, -1, 2], dtype=np.float32), np.array([-3, 5, 7, -0.25], dtype=np.float32)]
+        feeds = [{"x": xs[0], "tm": np.array(True)}, {"x": xs[1], "tm": np.array(False)}, {"x": xs[2], "tm": np.array(True)}]
+        for fd in feeds:
+            if variant == "dropout-computed-training-mode":
+                fd["tm2"] = np.array(False)
+            if variant == "dropout-runtime-ratio":
+                fd["ratio"] = np.array(0.5, dtype=np.float32)
     else:   # const-only-in-subgraph
         ins.append(helper.make_tensor_value_info("b", TensorProto.BOOL, []))
         for fd in feeds:
